@@ -4,10 +4,10 @@ From Coq Require Import List NArith ZArith.
 Require Extraction.
 Require Import ExtrOcamlBasic.
 From Mos Require Import Gen.OpcodeTable spec.Isa model.Encode model.I64 Gen.BinOps model.Expr
-  model.SymTab Gen.CodegenConsts model.Segment model.Asm spec.Relayout.
+  model.SymTab Gen.CodegenConsts model.Segment model.Asm spec.Relayout spec.Expand.
 
 Extraction "../extract/gen/asm.ml"
   Z.add Z.mul Z.sub Z.opp Z.div Z.modulo Z.pow Z.ltb Z.eqb Z.of_N Z.to_N N.add N.mul Z.of_nat Z.to_nat
   all_mnemonics all_binops
   codegen default_options segment_image vice_symbols all emit_instruction eval emit_data env_of lookup_in
-  try_index query z_to_text max_iterations Z.min Z.max bytes_from relayout.
+  try_index query z_to_text max_iterations Z.min Z.max bytes_from relayout expand print_tokens.
